@@ -606,6 +606,9 @@ class implicitmodel(timemodel):
             epsdiff * np.sum(np.abs(q)) / field.nelem
             for q in field.data
         ]
+        # a variable that is identically zero (e.g. momentum of a gas at rest) would get a zero step and 0/0 below
+        epsmax = max(eps)
+        eps = [e if e > 0. else (epsmax if epsmax > 0. else epsdiff) for e in eps]
         self.calcrhs(field)
         refrhs = [qf.copy() for qf in self.residual]
         for i in range(field.nelem):  # for all variables (nelem*neq)
